@@ -170,7 +170,7 @@ Proof.
     + assert (Hfk : f !! k = Some v) by (apply Hi; exact Hrv).
       split.
       * unfold inv. cbn. intros k' v'. rewrite !lookup_delete_Some. split.
-        -- intros [Hk Hf]. split; [|apply Hi; exact Hf]. intros <-. congruence.
+        -- intros [Hk Hf]. split; [|apply Hi; exact Hf]. intros <-. apply Hk. eapply inverse_inj_l; eauto.
         -- intros [Hv Hr]. apply Hi in Hr. split; [|exact Hr]. intros <-. congruence.
       * apply map_eq_rel. intros k' v'. unfold spec_remove_value.
         rewrite lookup_delete_Some, map_filter_lookup_Some. cbn. split.
@@ -321,10 +321,10 @@ Proof.
     + intros _ k. rewrite lookup_empty. discriminate.
   - destruct (r !! v) as [k0|] eqn:Hrv.
     + split; [|split; [eauto|discriminate]].
-      intros k. rewrite Hi. split; [intros [= ->]; exact Hrv|]. intros E. congruence.
+      intros k. rewrite (Hi k v). split; [intros [= ->]; exact Hrv|]. intros E. congruence.
     + split; [|split; [auto|]].
-      * intros k. rewrite Hi. split; [discriminate|congruence].
-      * intros _ k. rewrite Hi. congruence.
+      * intros k. rewrite (Hi k v). split; [discriminate|congruence].
+      * intros _ k. rewrite (Hi k v). congruence.
 Qed.
 
 Lemma ContainsReverse_spec b v : inv b ->
@@ -346,3 +346,398 @@ Proof.
   unfold Len, abs, map_len. destruct (forward b); cbn; [reflexivity|]. rewrite map_size_empty. reflexivity.
 Qed.
 
+(* the reverse map has as many entries as the forward map *)
+Lemma inverse_size f r : inverse f r -> size r = size f.
+Proof.
+  intros Hi.
+  assert (Hperm : map_to_list r ≡ₚ (fun kv : Z * Z => (kv.2, kv.1)) <$> map_to_list f).
+  { apply NoDup_Permutation.
+    - apply NoDup_map_to_list.
+    - apply NoDup_fmap_2; [|apply NoDup_map_to_list]. intros [a b] [c d]; cbn. congruence.
+    - intros [v k]. rewrite elem_of_map_to_list, elem_of_list_fmap. split.
+      + intros Hr. exists (k, v). split; [reflexivity|]. apply elem_of_map_to_list. apply Hi. exact Hr.
+      + intros ([k' v'] & [= -> ->] & Hin). apply elem_of_map_to_list in Hin. apply Hi. exact Hin. }
+  unfold size, map_size. rewrite Hperm, fmap_length. reflexivity.
+Qed.
+
+Lemma Len_reverse b : inv b -> map_len (reverse b) = map_len (forward b).
+Proof.
+  intros H. destruct (inv_cases b H) as [[Hf Hr]|(f & r & Hf & Hr & Hi)]; rewrite Hf, Hr; cbn; [reflexivity|].
+  rewrite (inverse_size f r Hi). reflexivity.
+Qed.
+
+(* ---- Range ---- *)
+Definition pairs_of (g : gmap Z Z) (order : list Z) : list (Z * Z) :=
+  omap (fun k => v ← g !! k; Some (k, v)) order.
+
+Lemma Range_loop_visit g order : forall T (f : T -> Z -> Z -> T * bool) s,
+  Range_loop (Some g) order f s = visit (pairs_of g order) f s.
+Proof.
+  induction order as [|k rest IH]; intros T f s; cbn; [reflexivity|].
+  destruct (g !! k) as [v|]; cbn.
+  - destruct (f s k v) as [s' c]. destruct c; cbn; [apply IH|reflexivity].
+  - apply IH.
+Qed.
+
+Lemma pairs_of_fst g order :
+  (forall k, k ∈ order -> is_Some (g !! k)) -> (pairs_of g order).*1 = order.
+Proof.
+  induction order as [|k rest IH]; intros Hall; cbn; [reflexivity|].
+  destruct (Hall k) as [v Hv]; [apply elem_of_cons; auto|]. rewrite Hv. cbn. f_equal.
+  apply IH. intros k' Hk'. apply Hall. apply elem_of_cons; auto.
+Qed.
+
+Lemma elem_of_pairs_of g order k v : (k, v) ∈ pairs_of g order <-> k ∈ order /\ g !! k = Some v.
+Proof.
+  unfold pairs_of. rewrite elem_of_list_omap. split.
+  - intros (k' & Hin & E). destruct (g !! k') as [v'|] eqn:Hg; cbn in E; [|discriminate].
+    injection E as <- <-. auto.
+  - intros [Hin Hg]. exists k. split; [exact Hin|]. rewrite Hg. reflexivity.
+Qed.
+
+Lemma pairs_of_perm g order :
+  order ≡ₚ map_keys (Some g) -> (pairs_of g order).*1 = order /\ pairs_of g order ≡ₚ map_to_list g.
+Proof.
+  intros Hp.
+  assert (Hfst : (pairs_of g order).*1 = order).
+  { apply pairs_of_fst. intros k Hk. rewrite Hp in Hk. apply elem_of_map_keys. exact Hk. }
+  split; [exact Hfst|].
+  apply NoDup_Permutation.
+  - apply (NoDup_fmap_1 fst). rewrite Hfst, Hp. apply NoDup_fst_map_to_list.
+  - apply NoDup_map_to_list.
+  - intros [k v]. rewrite elem_of_pairs_of, elem_of_map_to_list, Hp, elem_of_map_keys. naive_solver.
+Qed.
+
+(* For every order in which the range statement may produce the keys, Range
+   hands its callback the pairs ps, one call per pair, in turn, until the
+   callback returns false; ps enumerates the pair set without repetition. *)
+Lemma Range_spec b order :
+  order ≡ₚ map_keys (forward b) ->
+  exists ps, ps.*1 = order /\ ps ≡ₚ map_to_list (abs b) /\
+    forall T (f : T -> Z -> Z -> T * bool) s, Range b order f s = visit ps f s.
+Proof.
+  intros Hp. unfold Range, abs. destruct (forward b) as [g|]; cbn.
+  - exists (pairs_of g order). destruct (pairs_of_perm g order Hp) as [H1 H2].
+    split; [exact H1|]. split; [exact H2|]. intros T f s. apply Range_loop_visit.
+  - cbn in Hp. apply Permutation_nil_r in Hp. subst order. exists []. split; [reflexivity|].
+    split; [rewrite map_to_list_empty; reflexivity|]. reflexivity.
+Qed.
+
+Lemma visit_recording_state {T} ps (f : T -> Z -> Z -> T * bool) : forall cs s,
+  snd (visit ps (recording f) (cs, s)) = visit ps f s.
+Proof.
+  induction ps as [|[k v] rest IH]; intros cs s; cbn; [reflexivity|].
+  destruct (f s k v) as [s' c]. destruct c; [apply IH|reflexivity].
+Qed.
+
+Lemma visit_recording_prefix {T} ps (f : T -> Z -> Z -> T * bool) : forall cs s,
+  exists n, fst (visit ps (recording f) (cs, s)) = cs ++ take n ps.
+Proof.
+  induction ps as [|[k v] rest IH]; intros cs s; cbn.
+  - exists 0%nat. rewrite app_nil_r. reflexivity.
+  - destruct (f s k v) as [s' c]. destruct c.
+    + destruct (IH (cs ++ [(k, v)]) s') as [n E]. exists (S n). rewrite E, <- app_assoc. reflexivity.
+    + exists 1%nat. cbn. rewrite take_0. reflexivity.
+Qed.
+
+Lemma visit_recording_all {T} ps (f : T -> Z -> Z -> T * bool) :
+  (forall s k v, (k, v) ∈ ps -> snd (f s k v) = true) ->
+  forall cs s, fst (visit ps (recording f) (cs, s)) = cs ++ ps.
+Proof.
+  induction ps as [|[k v] rest IH]; intros Hall cs s; cbn.
+  - rewrite app_nil_r. reflexivity.
+  - pose proof (Hall s k v) as Hc. destruct (f s k v) as [s' c]. cbn in Hc.
+    rewrite Hc by (apply elem_of_cons; auto). rewrite IH, <- app_assoc; [reflexivity|].
+    intros s0 k0 v0 Hin. apply Hall. apply elem_of_cons; auto.
+Qed.
+
+(* the callback's first [false] ends the loop: nothing after that pair is visited *)
+Lemma visit_recording_stop {T} ps1 k v ps2 (f : T -> Z -> Z -> T * bool) :
+  (forall s k' v', (k', v') ∈ ps1 -> snd (f s k' v') = true) ->
+  (forall s, snd (f s k v) = false) ->
+  forall cs s, fst (visit (ps1 ++ (k, v) :: ps2) (recording f) (cs, s)) = cs ++ ps1 ++ [(k, v)].
+Proof.
+  induction ps1 as [|[k1 v1] rest IH]; intros Hall Hstop cs s; cbn.
+  - pose proof (Hstop s) as Hc. destruct (f s k v) as [s' c]. cbn in Hc. subst c. reflexivity.
+  - pose proof (Hall s k1 v1) as Hc. destruct (f s k1 v1) as [s' c]. cbn in Hc.
+    rewrite Hc by (apply elem_of_cons; auto). rewrite IH, <- app_assoc; [reflexivity| |exact Hstop].
+    intros s0 k0 v0 Hin. apply Hall. apply elem_of_cons; auto.
+Qed.
+
+(* ---- histories ---- *)
+Lemma get_handle_Some st h b : st !! h = Some b -> get_handle st h = Ok b.
+Proof. unfold get_handle. intros ->. reflexivity. Qed.
+
+Lemma get_handle_None st h : (length st <= h)%nat -> get_handle st h = Panic OtherPanic.
+Proof. unfold get_handle. intros Hl. rewrite lookup_ge_None_2 by exact Hl. reflexivity. Qed.
+
+Lemma Forall_inv_insert st h b : Forall inv st -> inv b -> Forall inv (<[h:=b]> st).
+Proof. intros Hst Hb. apply Forall_insert; assumption. Qed.
+
+(* an operation on a handle that does not exist *)
+Lemma step_bad st o :
+  (length st <= op_handle o)%nat -> step st o = Panic OtherPanic /\ spec_step (abs <$> st) o = None.
+Proof.
+  intros Hl.
+  assert (Hs : (abs <$> st) !! op_handle o = None) by (apply lookup_ge_None_2; rewrite fmap_length; exact Hl).
+  destruct o; cbn in *; rewrite get_handle_None by exact Hl; rewrite Hs; auto.
+Qed.
+
+(* what an operation writes: its handle, except that Clone writes no existing handle *)
+Definition op_target (o : op) : option nat :=
+  match o with OClone _ => None | _ => Some (op_handle o) end.
+
+(* one operation: no Go panic, invariant kept, refinement step, frame *)
+Lemma step_spec st o :
+  Forall inv st -> (op_handle o < length st)%nat ->
+  exists st', step st o = Ok st' /\ Forall inv st' /\
+    spec_step (abs <$> st) o = Some (abs <$> st') /\
+    length st' = (if op_is_clone o then S (length st) else length st) /\
+    (forall h, op_target o <> Some h -> (h < length st)%nat -> st' !! h = st !! h).
+Proof.
+  intros Hst Hl. destruct (lookup_lt_is_Some_2 st _ Hl) as [b Hb].
+  assert (Hinv : inv b) by (eapply Forall_lookup_1; eauto).
+  assert (Hs : (abs <$> st) !! op_handle o = Some (abs b)) by (rewrite list_lookup_fmap, Hb; reflexivity).
+  destruct o as [h k v|h k|h v|h|h]; cbn in *; rewrite (get_handle_Some _ _ _ Hb), Hs; cbn.
+  - destruct (Add_spec b k v Hinv) as (b' & E & Hinv' & Habs & _). rewrite E. cbn.
+    eexists. split; [reflexivity|]. unfold set_handle. split; [apply Forall_inv_insert; assumption|].
+    split; [rewrite list_fmap_insert, Habs; reflexivity|]. split; [apply insert_length|].
+    intros h' Hne _. apply list_lookup_insert_ne. congruence.
+  - destruct (RemoveForward_spec b k Hinv) as [Hinv' Habs].
+    eexists. split; [reflexivity|]. unfold set_handle. split; [apply Forall_inv_insert; assumption|].
+    split; [rewrite list_fmap_insert, Habs; reflexivity|]. split; [apply insert_length|].
+    intros h' Hne _. apply list_lookup_insert_ne. congruence.
+  - destruct (RemoveReverse_spec b v Hinv) as [Hinv' Habs].
+    eexists. split; [reflexivity|]. unfold set_handle. split; [apply Forall_inv_insert; assumption|].
+    split; [rewrite list_fmap_insert, Habs; reflexivity|]. split; [apply insert_length|].
+    intros h' Hne _. apply list_lookup_insert_ne. congruence.
+  - destruct (Clear_spec b Hinv) as [Hinv' Habs].
+    eexists. split; [reflexivity|]. unfold set_handle. split; [apply Forall_inv_insert; assumption|].
+    split; [rewrite list_fmap_insert, Habs; reflexivity|]. split; [apply insert_length|].
+    intros h' Hne _. apply list_lookup_insert_ne. congruence.
+  - destruct (Clone_spec b Hinv) as (c & E & Hinv' & Habs & _). rewrite E. cbn.
+    eexists. split; [reflexivity|]. split; [apply Forall_app; split; [assumption|repeat constructor; assumption]|].
+    split; [rewrite fmap_app; cbn; rewrite Habs; reflexivity|]. split; [rewrite app_length; cbn; lia|].
+    intros h' _ Hlt. apply lookup_app_l. exact Hlt.
+Qed.
+
+Lemma run_from_spec ops : forall st,
+  Forall inv st -> wf_ops_from (length st) ops = true ->
+  exists st', run_from st ops = Ok st' /\ Forall inv st' /\
+    spec_run_from (abs <$> st) ops = Some (abs <$> st').
+Proof.
+  induction ops as [|o rest IH]; intros st Hst Hwf; cbn [wf_ops_from run_from spec_run_from] in *.
+  - eauto.
+  - apply andb_true_iff in Hwf as [Hh Hwf]. apply Nat.ltb_lt in Hh.
+    destruct (step_spec st o Hst Hh) as (st1 & E & Hst1 & Hsp & Hlen & _).
+    rewrite E, Hsp. cbn [bind mbind option_bind]. apply IH; [exact Hst1|]. rewrite Hlen. exact Hwf.
+Qed.
+
+Lemma run_from_bad ops : forall st,
+  Forall inv st -> wf_ops_from (length st) ops = false ->
+  run_from st ops = Panic OtherPanic /\ spec_run_from (abs <$> st) ops = None.
+Proof.
+  induction ops as [|o rest IH]; intros st Hst Hwf; cbn [wf_ops_from run_from spec_run_from] in *; [discriminate|].
+  destruct (Nat.ltb_spec (op_handle o) (length st)) as [Hh|Hh]; cbn [andb] in Hwf.
+  - destruct (step_spec st o Hst Hh) as (st1 & E & Hst1 & Hsp & Hlen & _).
+    rewrite E, Hsp. cbn [bind mbind option_bind]. apply IH; [exact Hst1|]. rewrite Hlen. exact Hwf.
+  - destruct (step_bad st o Hh) as [E Hsp]. rewrite E, Hsp. auto.
+Qed.
+
+Lemma Forall_inv_init : Forall inv init_state.
+Proof. repeat constructor. Qed.
+
+(* a history runs to completion, without any Go panic, exactly when it only names existing handles *)
+Lemma run_total ops :
+  (wf_ops ops = true -> exists st, run ops = Ok st) /\
+  (wf_ops ops = false -> run ops = Panic OtherPanic) /\
+  (forall st, run ops = Ok st -> wf_ops ops = true).
+Proof.
+  unfold run, wf_ops. split; [|split].
+  - intros Hwf. destruct (run_from_spec ops init_state Forall_inv_init Hwf) as (st & E & _). eauto.
+  - intros Hwf. apply (run_from_bad ops init_state Forall_inv_init Hwf).
+  - intros st E. destruct (wf_ops_from 1 ops) eqn:Hwf; [reflexivity|].
+    destruct (run_from_bad ops init_state Forall_inv_init Hwf) as [E' _]. cbn in *. congruence.
+Qed.
+
+Lemma run_refines ops st :
+  run ops = Ok st ->
+  Forall inv st /\ spec_run ops = Some (abs <$> st) /\ Forall injective (abs <$> st).
+Proof.
+  intros E. pose proof (proj2 (proj2 (run_total ops)) st E) as Hwf.
+  unfold run, wf_ops, spec_run in *.
+  destruct (run_from_spec ops init_state Forall_inv_init Hwf) as (st' & E' & Hinv & Hsp).
+  assert (st' = st) by congruence. subst st'.
+  split; [exact Hinv|]. split; [exact Hsp|].
+  apply Forall_fmap. eapply Forall_impl; [exact Hinv|]. intros b Hb. apply injective_abs. exact Hb.
+Qed.
+
+Lemma run_inv ops st h b : run ops = Ok st -> st !! h = Some b -> inv b.
+Proof.
+  intros E Hb. destruct (run_refines ops st E) as [Hinv _]. eapply Forall_lookup_1; eauto.
+Qed.
+
+(* GetForward and GetReverse are inverse of each other *)
+Lemma inverse_lookups b k v : inv b -> GetForward b k = (v, true) <-> GetReverse b v = (k, true).
+Proof.
+  intros H. destruct (GetReverse_spec b v H) as [Hr _]. rewrite Hr, GetForward_spec.
+  destruct (abs b !! k) as [v'|]; split; congruence.
+Qed.
+
+(* ---- frame: operations on other handles do not change a handle ---- *)
+Lemma run_from_app ops1 : forall st ops2,
+  run_from st (ops1 ++ ops2) = (do st1 <- run_from st ops1; run_from st1 ops2).
+Proof.
+  induction ops1 as [|o rest IH]; intros st ops2; cbn; [reflexivity|].
+  destruct (step st o) as [st1|kind]; cbn; [apply IH|reflexivity].
+Qed.
+
+Lemma step_length st o st' : step st o = Ok st' -> (length st <= length st')%nat.
+Proof.
+  destruct o as [h k v|h k|h v|h|h]; cbn; unfold get_handle, set_handle; destruct (st !! h) as [b|]; cbn; try discriminate.
+  - destruct (Add b k v); cbn; [|discriminate]. intros [= <-]. rewrite insert_length. lia.
+  - intros [= <-]. rewrite insert_length. lia.
+  - intros [= <-]. rewrite insert_length. lia.
+  - intros [= <-]. rewrite insert_length. lia.
+  - destruct (Clone b); cbn; [|discriminate]. intros [= <-]. rewrite app_length. lia.
+Qed.
+
+Lemma step_frame st o st' h :
+  step st o = Ok st' -> op_target o <> Some h -> (h < length st)%nat -> st' !! h = st !! h.
+Proof.
+  destruct o as [h0 k v|h0 k|h0 v|h0|h0]; cbn; unfold get_handle, set_handle; destruct (st !! h0) as [b|]; cbn; try discriminate.
+  - destruct (Add b k v); cbn; [|discriminate]. intros [= <-] Hne _. apply list_lookup_insert_ne. congruence.
+  - intros [= <-] Hne _. apply list_lookup_insert_ne. congruence.
+  - intros [= <-] Hne _. apply list_lookup_insert_ne. congruence.
+  - intros [= <-] Hne _. apply list_lookup_insert_ne. congruence.
+  - destruct (Clone b); cbn; [|discriminate]. intros [= <-] _ Hlt. apply lookup_app_l. exact Hlt.
+Qed.
+
+Lemma run_from_frame ops : forall st st' h,
+  run_from st ops = Ok st' -> (h < length st)%nat ->
+  Forall (fun o => op_target o <> Some h) ops -> st' !! h = st !! h.
+Proof.
+  induction ops as [|o rest IH]; intros st st' h E Hlt Hall; cbn in E.
+  - congruence.
+  - destruct (step st o) as [st1|kind] eqn:Es; cbn in E; [|discriminate].
+    apply Forall_cons in Hall as [Ho Hall].
+    rewrite (IH st1 st' h E); [apply (step_frame st o st1 h Es Ho Hlt)| |exact Hall].
+    pose proof (step_length st o st1 Es). lia.
+Qed.
+
+Lemma run_frame ops1 ops2 st1 st2 h :
+  run ops1 = Ok st1 -> run (ops1 ++ ops2) = Ok st2 -> (h < length st1)%nat ->
+  Forall (fun o => op_target o <> Some h) ops2 -> st2 !! h = st1 !! h.
+Proof.
+  unfold run. intros E1 E2 Hlt Hall. rewrite run_from_app, E1 in E2. cbn in E2.
+  eapply run_from_frame; eauto.
+Qed.
+
+(* Clone appends a handle that reads exactly like its source and owns allocated maps *)
+Lemma run_clone ops h st' :
+  run (ops ++ [OClone h]) = Ok st' ->
+  exists st b c, run ops = Ok st /\ st !! h = Some b /\ st' = st ++ [c] /\
+    inv c /\ abs c = abs b /\ forward c <> None.
+Proof.
+  unfold run. rewrite run_from_app. intros E.
+  destruct (run_from init_state ops) as [st|kind] eqn:E1; cbn in E; [|discriminate].
+  unfold get_handle in E. destruct (st !! h) as [b|] eqn:Hb; cbn in E; [|discriminate].
+  assert (Hinv : inv b) by (eapply (run_inv ops); eauto).
+  destruct (Clone_spec b Hinv) as (c & Ec & Hc & Habs & Hnn). rewrite Ec in E. cbn in E.
+  injection E as <-. exists st, b, c. auto 10.
+Qed.
+
+(* ---- reading the reference operations pointwise ---- *)
+Lemma spec_remove_value_lookup m v k' v' :
+  spec_remove_value v m !! k' = Some v' <-> m !! k' = Some v' /\ v' <> v.
+Proof. unfold spec_remove_value. rewrite map_filter_lookup_Some. cbn. reflexivity. Qed.
+
+Lemma map_keys_abs b : map_keys (forward b) = (map_to_list (abs b)).*1.
+Proof. unfold abs, map_keys. destruct (forward b); cbn; [reflexivity|]. rewrite map_to_list_empty. reflexivity. Qed.
+
+(* ---- Range, packaged for the property file ---- *)
+Lemma Range_exactly_once b order {T} (f : T -> Z -> Z -> T * bool) s :
+  order ≡ₚ map_keys (forward b) ->
+  (forall s k v, snd (f s k v) = true) ->
+  fst (Range b order (recording f) ([], s)) ≡ₚ map_to_list (abs b) /\
+  (fst (Range b order (recording f) ([], s))).*1 = order.
+Proof.
+  intros Hp Hall. destruct (Range_spec b order Hp) as (ps & Hfst & Hperm & HR).
+  rewrite HR, visit_recording_all by auto. cbn. auto.
+Qed.
+
+Lemma Range_prefix b order {T} (f : T -> Z -> Z -> T * bool) s :
+  order ≡ₚ map_keys (forward b) ->
+  exists ps n, ps.*1 = order /\ ps ≡ₚ map_to_list (abs b) /\
+    fst (Range b order (recording f) ([], s)) = take n ps /\
+    snd (Range b order (recording f) ([], s)) = Range b order f s.
+Proof.
+  intros Hp. destruct (Range_spec b order Hp) as (ps & Hfst & Hperm & HR).
+  destruct (visit_recording_prefix ps f [] s) as [n En].
+  exists ps, n. rewrite !HR, visit_recording_state. auto.
+Qed.
+
+Lemma Range_stop b order {T} (f : T -> Z -> Z -> T * bool) s k v :
+  order ≡ₚ map_keys (forward b) ->
+  abs b !! k = Some v ->
+  (forall s k' v', (k', v') <> (k, v) -> snd (f s k' v') = true) ->
+  (forall s, snd (f s k v) = false) ->
+  exists ps1 ps2, (ps1 ++ (k, v) :: ps2).*1 = order /\ ps1 ++ (k, v) :: ps2 ≡ₚ map_to_list (abs b) /\
+    fst (Range b order (recording f) ([], s)) = ps1 ++ [(k, v)].
+Proof.
+  intros Hp Hkv Hother Hstop. destruct (Range_spec b order Hp) as (ps & Hfst & Hperm & HR).
+  assert (Hin : (k, v) ∈ ps) by (rewrite Hperm; apply elem_of_map_to_list; exact Hkv).
+  apply elem_of_list_split in Hin as (ps1 & ps2 & ->).
+  exists ps1, ps2. split; [exact Hfst|]. split; [exact Hperm|].
+  rewrite HR, visit_recording_stop; [reflexivity| |exact Hstop].
+  intros s0 k' v' Hin'. apply Hother. intros E. rewrite E in Hin'.
+  assert (Hnd : NoDup (ps1 ++ (k, v) :: ps2)) by (rewrite Hperm; apply NoDup_map_to_list).
+  apply NoDup_app in Hnd as (_ & Hdis & _). apply (Hdis _ Hin'). apply elem_of_cons; auto.
+Qed.
+
+Lemma order_irrelevant b order_f order_r :
+  order_f ≡ₚ map_keys (forward b) -> order_r ≡ₚ map_keys (reverse b) ->
+  Clear_order order_f order_r b = Clear b /\ Clone_order order_f order_r b = Clone b.
+Proof.
+  intros Hf Hr. unfold Clear, Clone.
+  rewrite (Clear_order_eq order_f order_r b Hf Hr), (Clone_order_eq order_f order_r b Hf Hr).
+  rewrite Clear_order_eq, Clone_order_eq by reflexivity. auto.
+Qed.
+
+(* every observer of a handle after a history, read off the reference state *)
+Lemma observers ops st h b :
+  run ops = Ok st -> st !! h = Some b ->
+  exists sp m, spec_run ops = Some sp /\ sp !! h = Some m /\ injective m /\ m = abs b /\
+    (forall k, GetForward b k = match m !! k with Some v => (v, true) | None => (0, false) end) /\
+    (forall k, ContainsForward b k = bool_decide (is_Some (m !! k))) /\
+    (forall v k, GetReverse b v = (k, true) <-> m !! k = Some v) /\
+    (forall v, GetReverse b v = (0, false) \/ exists k, GetReverse b v = (k, true)) /\
+    (forall v, ContainsReverse b v = true <-> exists k, m !! k = Some v) /\
+    (forall v, ContainsReverse b v = snd (GetReverse b v)) /\
+    Len (Some b) = Z.of_nat (size m) /\
+    map_len (reverse b) = map_len (forward b).
+Proof.
+  intros E Hb. destruct (run_refines ops st E) as (Hinv & Hsp & Hinj).
+  assert (Hi : inv b) by (eapply Forall_lookup_1; eauto).
+  exists (abs <$> st), (abs b). split; [exact Hsp|].
+  split; [rewrite list_lookup_fmap, Hb; reflexivity|].
+  split; [apply injective_abs; exact Hi|]. split; [reflexivity|].
+  split; [intros k; apply GetForward_spec|].
+  split; [intros k; apply ContainsForward_spec|].
+  split; [intros v k; apply (GetReverse_spec b v Hi)|].
+  split; [intros v; apply (GetReverse_spec b v Hi)|].
+  split; [intros v; apply (ContainsReverse_spec b v Hi)|].
+  split; [intros v; apply (ContainsReverse_spec b v Hi)|].
+  split; [apply Len_spec|apply Len_reverse; exact Hi].
+Qed.
+
+Lemma run_inverse ops st h b :
+  run ops = Ok st -> st !! h = Some b ->
+  forall k v, GetForward b k = (v, true) <-> GetReverse b v = (k, true).
+Proof. intros E Hb k v. apply inverse_lookups. eapply run_inv; eauto. Qed.
+
+Lemma run_range ops st h b order :
+  run ops = Ok st -> st !! h = Some b -> order ≡ₚ map_keys (forward b) ->
+  exists ps, ps.*1 = order /\ ps ≡ₚ map_to_list (abs b) /\
+    forall T (f : T -> Z -> Z -> T * bool) s, Range b order f s = visit ps f s.
+Proof. intros _ _. apply Range_spec. Qed.
